@@ -84,6 +84,10 @@ def run(ctx):
         "languages and URLs of mounted children are empty or start with '/'; an earlier registration that also matches the URL legitimately shadows the target",
         "a mount never falls back to later options of the parent when the child answers 404 (as in the code; the property's 'first mount point, then first handler')",
         "legacy asynchronous mounts (second list of the pool) are not driven",
+        "mapper keys (absolute, '..', children) and keyword defaults are resolved in the MAPPER hierarchy (url_mapper::mount), which the drivers "
+        "build independently of the dispatcher tree and of the add()/attach() application hierarchy (6 wiring styles per level, incl. an unnamed "
+        "front application above a named hierarchy and levels mounted without add()); the top of a mapper hierarchy that is not the root "
+        "application gets the path it is reached by as its root string; applications mounted without add() get the context assigned by the driver",
     ]
     X = ["-noGenerateSpecTE"]
 
@@ -92,7 +96,7 @@ def run(ctx):
                    note="every level option list (<=2 handlers, <=1 mount, 9 handler kinds, 2 mount patterns) x requests (incl. word+LF) x methods (incl. GET+LF); mapper chains depth<=3; mount points x host/script/path incl. line ends")
         for cfg, inv in (("Route_mut_search.cfg", "MatcherAgrees"), ("Route_mut_reverse.cfg", "FirstMatch"),
                          ("Route_mut_icase.cfg", "FirstMatch"), ("Route_mut_wrongparam.cfg", "MapThenRoute"),
-                         ("Route_mut_dollar.cfg", "NoPrefix")):
+                         ("Route_mut_dollar.cfg", "NoPrefix"), ("Route_mut_approot.cfg", "MapThenRoute")):
             ctx.design("Route/Route.tla", cfg, workers=W, timeout=900, deadlock_off=True, extra=X, expect_violation=inv, count=False,
                        note="self-test: seeded fault in the model must violate " + inv)
 
